@@ -135,7 +135,7 @@ def main() -> int:
     # listed findings) have no meaningful 'statement printed for the op'; they stay in C09 only through the fallback /
     # SsbScript paths
     from vf import shapes
-    STRUCT = {"call", "xroutine", "selftarget", "spin", "twoback", "orphancase"}
+    STRUCT = {"call", "xroutine", "selftarget", "spin", "twoback", "orphancase", "entryjumptarget"}
     n_before = len(cases)
     cases = [c for c in cases if not (set(shapes.tags(c["routines"])) & STRUCT)]
     rep.extra["skipped_c02_finding_shapes"] = n_before - len(cases)
@@ -160,8 +160,8 @@ def main() -> int:
         r = recs[i]
         e = r["entries"][k - 1] if 0 < k <= len(r["entries"]) else None
         lines = r["text"].split("\n")
-        # shape fact for the findings file (not a verdict): the entry lies in a block that was printed empty - `... {` directly followed by `}`
-        empty_block = bool(e and 0 < e["line"] < len(lines) and lines[e["line"]].strip().startswith("}") and lines[e["line"] - 1].rstrip().endswith("{")
+        # shape fact for the findings file (not a verdict): the entry lies in a block that was printed empty - `... {` or `default:` / `case ..:` directly followed by `}`
+        empty_block = bool(e and 0 < e["line"] < len(lines) and lines[e["line"]].strip().startswith("}") and lines[e["line"] - 1].rstrip().endswith(("{", ":"))
                            and e["col"] > len(lines[e["line"]]) - len(lines[e["line"]].lstrip(" ")))
         rep.violation("decompile-map:" + kind, {"which": r["which"], "input": fmt(r["inp"]), "text": r["text"][:2500], "entry": e, "origin": r["origin"],
                                                 "empty_block": empty_block,
